@@ -60,6 +60,11 @@ def coq_value(v):
         return f"(VFloat {coq_q(v)})"
     if isinstance(v, str):
         return f"(VStr {coq_str(v)})"
+    import datetime as _dt
+    if isinstance(v, _dt.datetime):
+        if (v.hour, v.minute, v.second, v.microsecond) != (0, 0, 0, 0) or v.tzinfo is not None:
+            raise Untranslatable(f"datetime constant with a time part: {v!r}")
+        return f"(VInt {v.toordinal()})"      # a midnight datetime is its ordinal (Lib/PyDate.v)
     if isinstance(v, tuple):
         return "(VTuple [" + "; ".join(coq_value(x) for x in v) + "])"
     if isinstance(v, list):
@@ -170,7 +175,8 @@ class ModuleTranslator:
     """Translate selected functions/constants of one Python module."""
 
     def __init__(self, modname, pymod, path, funcs=(), consts=(), partials=(),
-                 externs=None, libcalls=None, fuel=None, methods=None, import_consts=()):
+                 externs=None, libcalls=None, fuel=None, methods=None, import_consts=(),
+                 header_imports=()):
         self.modname = modname
         self.pymod = pymod
         self.path = path
@@ -178,6 +184,7 @@ class ModuleTranslator:
         self.tree = ast.parse(self.src)
         self.func_names = list(funcs)
         self.import_consts = list(import_consts)
+        self.header_imports = list(header_imports)
         self.const_names = list(consts) + list(import_consts)
         self.partial_names = list(partials)
         # externs: python name -> ('const'|'func', coq qualified name, FuncInfo|None)
@@ -244,6 +251,7 @@ class ModuleTranslator:
         out = [f"(* GENERATED by translator/pylite.py from {self.path} — do not edit *)",
                "From Coq Require Import ZArith QArith List Bool.",
                "From PV Require Import Lib.Py.",
+               *[f"From PV Require Import {h}." for h in self.header_imports],
                "Import ListNotations.",
                "Open Scope Z_scope.",
                ""]
@@ -427,11 +435,19 @@ class ModuleTranslator:
             # no join point needed: at most one branch continues into rest
             self.scope = set(scope0)
             b = self.block(s.body + (rest if bt else []), ret, k)
+            sb = set(self.scope)
             self.scope = set(scope0)
             o = self.block(s.orelse + (rest if ot else []), ret, k)
-            # scope after: conservative (only what both continuing paths define) —
-            # but nothing follows in this frame, so restoring is enough
-            self.scope = scope0
+            so = set(self.scope)
+            # scope after the statement: what every path that falls through defines
+            if bt and ot:
+                self.scope = sb & so
+            elif bt:
+                self.scope = sb
+            elif ot:
+                self.scope = so
+            else:
+                self.scope = set(scope0)
             return f"(bind {c} (fun c_ => if c_ then\n{b}\n else\n{o}))"
         # both branches fall through and something follows: join point
         av = assigned_names(s.body + s.orelse)
@@ -753,6 +769,9 @@ class ModuleTranslator:
             return self.builtin_call(n, e)
         if isinstance(f, ast.Attribute):
             key = self.dotted(f)
+            if key in ('dt.timedelta', 'datetime.timedelta') and not e.args \
+                    and len(e.keywords) == 1 and e.keywords[0].arg == 'days':
+                return f"(lift1 py_timedelta {self.E(e.keywords[0].value)})"
             if key in self.libcalls:
                 return self.libcall(self.libcalls[key], e)
             # method calls on values
